@@ -252,3 +252,62 @@ AllFields = ForallList('is_field_node', lambda x: exact(x, 'FieldNode'))
 
 CONTRACTS = [ShouldIncludeNode(), ConditionMatch(), CollectFields(), CollectFieldsFresh(C + 'collect_fields'), CollectSubfields()]
 LEMMAS = []
+
+
+# ---- execute_operation: executor choice by operation type (C09), an escaped failure nulls `data` and is recorded (C02)
+class ExecuteOperation(Contract):
+    key = 'tartiflette/execution/execute.py::execute_operation'
+    property_ids = ('C09', 'C01', 'C02')
+    params = ['execution_context', 'operation', 'root_value']
+    modifies_fields = ('errors',)
+
+    def args(self, en, names):
+        self.A = super().args(en, names)
+        self.root_type, self.fields = fresh('root_type'), fresh('collected_fields')
+        self.data = fresh('data')
+        self.fails = fresh('executor_fails', BoolS)
+        return self.A
+
+    def pre(self, A, st):
+        op, ctx = A['operation'], A['execution_context']
+        ss = attr0(op, 'selection_set')
+        return [('operation', z3.And(exact(op, 'OperationDefinitionNode'), V.oref(op) >= 0, V.is_Str(attr0(op, 'operation_type')),
+                                     exact(ss, 'SelectionSetNode'), V.oref(ss) >= 0, V.is_List(attr0(ss, 'selections')))),
+                ('context', z3.And(exact(ctx, 'ExecutionContext'), V.oref(ctx) >= 0, exact(attr0(ctx, 'schema'), 'GraphQLSchema'), V.oref(attr0(ctx, 'schema')) >= 0,
+                                   V.is_List(attr0(ctx, 'errors'))))]
+
+    def ghost0(self, A):
+        return {'serial': z3.BoolVal(False), 'parallel': z3.BoolVal(False), 'executed_fields': V.Missing, 'executed_type': V.Missing, 'collected_from': V.Missing,
+                'recorded': V.Missing}
+
+    def _executor(self, which):
+        def run(en, st, a, kw):
+            st = st.put_ghost(which, z3.BoolVal(True)).put_ghost('executed_fields', en.read(a[4], st)).put_ghost('executed_type', en.read(a[1], st))
+            e = V.Obj(fresh('ecls', IntS), fresh('eref', IntS))
+            return en.branches(st, [(z3.Not(self.fails), self.data), (z3.And(self.fails, exc_full_wf(e), V.oref(e) >= 0), Raise(e))])
+        return PyFunc(which, run)
+
+    def extra_env(self, en, A):
+        def collect(en, st, a, kw):
+            return [(st.put_ghost('collected_from', en.read(a[2], st)), self.fields)]
+        return {'collect_fields': PyFunc('collect_fields', collect), 'execute_fields_serially': self._executor('serial'), 'execute_fields': self._executor('parallel')}
+
+    def getattr_hook(self, en, st, v, attr):
+        if attr == 'get_operation_root_type':
+            return [(st, PyFunc('get_operation_root_type', lambda en, s, a, kw: [(s, self.root_type)]))]
+        if attr == 'add_error' and z3.eq(v, self.A['execution_context']):
+            return [(st, PyFunc('add_error', lambda en, s, a, kw: [(s.put_ghost('recorded', en.read(a[0], s)), V.None_)]))]
+        return None
+
+    def post(self, A, st0, out):
+        if out.kind == 'raise':
+            return never_raises(out)
+        g = out.st.ghost
+        is_mut = attr0(A['operation'], 'operation_type') == S('mutation')
+        return [('mutations_run_serially', g['serial'] == is_mut), ('others_run_with_execute_fields', g['parallel'] == z3.Not(is_mut)),
+                ('on_the_collected_root_fields', z3.And(g['executed_fields'] == self.fields, g['executed_type'] == self.root_type,
+                                                        g['collected_from'] == attr0(A['operation'], 'selection_set'))),
+                ('data_or_null_with_error', z3.If(self.fails, z3.And(out.value == V.None_, g['recorded'] != V.Missing), z3.And(out.value == self.data, g['recorded'] == V.Missing)))]
+
+
+CONTRACTS.append(ExecuteOperation())
